@@ -8,6 +8,7 @@
 import Golib.Gen.C18
 import Golib.Conf.FSLemmas
 import Golib.Conf.Reload
+import Golib.Conf.Observers
 
 namespace C18Gen
 open Gen.C18 Conf
@@ -57,6 +58,17 @@ theorem no_must_load : mustLoadCalls = [] := by decide
 
 /-- D37: reload compares the modification time in nanoseconds and the size (`Conf.verFull`) -/
 theorem version_is_full : mtimeMethod = "UnixNano" ∧ sizeCompared = true := by decide
+
+/-- the "no change" test of reload is built from equalities only: *any* difference of the version
+    (older mtime, equal mtime with another size, …) triggers a load, as in `Conf.reload`
+    (`c.last == v`) and as `C18.tracks` needs -/
+theorem version_test_is_equality :
+    sameVersionOps ≠ [] ∧ sameVersionOps.all (fun op => op == "==" || op == "!=") = true := by decide
+
+/-- FileConfig notifies through the caller's observer registry itself, so targets added after the
+    configuration was created are notified too (`Conf.Obs`: `run` calls whoever is registered at
+    that moment) -/
+theorem observer_registry_shared : observerStoredDirectly = true := by decide
 
 /-- D38: GetIntSet appends when `err == nil` -/
 theorem intset_keeps_valid : intSetErrOp = "==" := by decide
